@@ -576,6 +576,16 @@ func TestEveryKindC08(t *testing.T) {
 				kv = append(kv, k.Value.Example(salt+13*ki+i))
 			}
 			cols := []colSpec{{Name: "k", Kind: k, Rows: kv}}
+			if (ki+salt)%2 == 0 {
+				// something is read after the column (a decoder that only borrows the transport's
+				// buffer is exposed once the buffer is refilled)
+				tail := gen.ByName["UInt64|X|UInt64"]
+				var tv []ref.Val
+				for i := 0; i < rows; i++ {
+					tv = append(tv, tail.Value.Example(salt+i))
+				}
+				cols = append(cols, colSpec{Name: "tail", Kind: tail, Rows: tv})
+			}
 			rev := blockRevs[(ki+salt)%len(blockRevs)]
 			e := &ref.Enc{NoMap: true, LCBump: ki % 3}
 			ref.EncodeBlock(e, rev, refBlock(cols, ref.BlockInfo{BucketNum: -1}))
@@ -588,7 +598,8 @@ func TestEveryKindC08(t *testing.T) {
 				stream = f
 			}
 			auto := autoInferable(k.T.Name) && ki%2 == 0
-			segsList := [][]int{nil, ones(len(stream)), {1}, {len(stream) / 2}, {len(stream) - 1}, {(salt+ki)%max(1, len(stream)-1) + 1}}
+			segsList := [][]int{nil, ones(len(stream)), {1}, {len(stream) / 2}, {len(stream) - 1}, {(salt+ki)%max(1, len(stream)-1) + 1},
+				{max(1, len(stream)-3)}, {max(1, len(stream)-9)}, {max(1, len(stream)-17)}, {max(1, len(stream)*3/4)}}
 			for _, segs := range segsList {
 				got, err := decodeSegmented(stream, segs, compressed, rev, cols, auto)
 				if err != nil {
